@@ -634,6 +634,9 @@ def e2e_mitm(ctx, kex, kind, algo, field, rng):
         ctx.case(("e2e-mitm", kex, algo, field), True)
         ctx.dist("e2e-mitm:%s:%s" % (fam, field))
         if not hit and field == "value-strip-sign-pad":
+            if err is not None:
+                ctx.disagree("e2e-honest-handshake-failed", case, "completes", repr(err))
+                return None
             ctx.dist("e2e-mitm:value-strip-sign-pad:not-applicable(f without pad)")
             return "retry"
         if not hit:
@@ -1136,11 +1139,11 @@ def end_to_end(ctx):
     for j, k in enumerate(["group14-256", "group1", "group16", "gex256"] + (["group14", "gex"] if ctx.thorough else [])):
         plan.append((k,) + KEY_ALGOS[(2 * j + 1) % 7] + ("value-strip-sign-pad",))
     for kex, kind, algo, f in plan:
-        for _try in range(8):
+        for _try in range(60):  # an f needs the pad in every second exchange; 60 misses in a row do not happen
             if e2e_mitm(ctx, kex, kind, algo, f, rng) != "retry":
                 break
         else:
-            ctx.disagree("e2e-mitm-no-padded-f-in-8-exchanges", {"kex": kex}, "an f with its top bit set", "none")
+            ctx.disagree("e2e-mitm-no-padded-f-in-60-exchanges", {"kex": kex}, "an f with its top bit set", "none")
     # a key of ANOTHER type than negotiated, its signature labelled with the negotiated name (and the converses)
     names = list(CURVE_HASH)
     kexes = ["c25519", "nistp256", "group14-256", "gex256", "group16", "nistp384", "group1", "nistp521", "gex", "group14"]
